@@ -145,6 +145,50 @@ mod verif_bounded_mdk {
         }
     }
 
+    // C01 with a group-data update among the racers: two admins commit on the same epoch, the LOSING commit rotates the group's Nostr
+    // group id. Whichever of the two reaches a bystander first, once both were offered (and offered again) the bystander stands on the
+    // winning branch: epoch 2 of bob's commit, the old Nostr group id. Scope: 2 delivery orders, both back ends, 2 re-deliveries each.
+    // Its own test and label: see known_findings.txt if the unchanged tree fails it.
+    #[test]
+    fn race_lost_by_a_commit_that_rotates_the_nostr_group_id_history() {
+        let label = "mdk_backends_bounded.race_lost_by_a_commit_that_rotates_the_nostr_group_id_history";
+        let mut ends = vec![];
+        for loser_first in [true, false] {
+            let mut w = setup();
+            w.alice_msg(label, "m1");
+            let old_id = fp(&w.mem, &w.gid).nostr_group_id;
+            // race on epoch 1: bob's self-update first (winner), alice's rotation one second later (loser)
+            let bob_commit = w.b.self_update(&w.gid).unwrap().evolution_event;
+            std::thread::sleep(std::time::Duration::from_millis(1100));
+            let alice_commit = w.a.update_group_data(&w.gid, NostrGroupDataUpdate::new().nostr_group_id([0x77; 32])).unwrap().evolution_event;
+            if loser_first {
+                w.deliver(label, "alice's (losing) commit, which rotates the Nostr group id", &alice_commit);
+                w.deliver(label, "bob's (winning, earlier) commit for the same epoch, tagged with the old Nostr group id", &bob_commit);
+            } else {
+                w.deliver(label, "bob's (winning, earlier) commit", &bob_commit);
+                w.deliver(label, "alice's (losing) commit, which rotates the Nostr group id", &alice_commit);
+            }
+            for (what, e) in [("re-delivery: bob's commit", &bob_commit), ("re-delivery: alice's commit", &alice_commit), ("re-delivery: bob's commit", &bob_commit)] { w.deliver(label, what, e); }
+            w.b.merge_pending_commit(&w.gid).unwrap();
+            let want_epoch = w.b.get_group(&w.gid).unwrap().unwrap().epoch;
+            for (who, f) in [("memory-backed", fp(&w.mem, &w.gid)), ("SQLite-backed", fp(&w.sql, &w.gid))] {
+                if f.epoch != Some(want_epoch) || f.nostr_group_id != old_id {
+                    panic!("BOUNDED-COUNTEREXAMPLE {label}: scenario [history: {}] the {who} bystander does not end on the winning branch: expected epoch {want_epoch} of bob's commit and the OLD Nostr group id ; got epoch {:?}, Nostr group id {}",
+                           w.log.join(" ; "), f.epoch, if f.nostr_group_id == old_id { "old" } else { "rotated (alice's losing commit)" });
+                }
+            }
+            // and it can follow the winner: a message bob sends on the winning branch is read
+            let after = w.b.create_message(&w.gid, create_test_rumor(&w.bk, "bob after the race")).unwrap();
+            w.deliver(label, "bob's message on the winning branch", &after);
+            let f = fp(&w.sql, &w.gid);
+            if !f.messages.iter().any(|m| m.0 == after.id.to_hex() || m.1 == "Processed" && m.2 == Some(want_epoch)) {
+                panic!("BOUNDED-COUNTEREXAMPLE {label}: scenario [history: {}] the SQLite-backed bystander cannot read the winner's message of epoch {want_epoch}: {:?}", w.log.join(" ; "), f.messages);
+            }
+            ends.push((f.epoch, f.nostr_group_id));
+        }
+        if ends[0] != ends[1] { panic!("BOUNDED-COUNTEREXAMPLE {label}: scenario [the same two commits in the two delivery orders] the bystander ends in {:?} (loser first) and {:?} (winner first)", ends[0], ends[1]); }
+    }
+
     // C18 "the cached last-message pointer always designates the first message of the default order among messages that are not
     // invalidated", after a rollback that follows a LATE message: a message of epoch n reaches the bystanders after they applied the (losing)
     // commit that closed epoch n; it is stored and becomes the last message; the winning commit arrives, the rollback restores the group
